@@ -55,6 +55,9 @@ CLAUSES = {
     23: 'C20_one_retry: number of data GETs is not "1, or 2 exactly when the first 200 body failed verification" '
         '(and 0 for a valid existing file; never more than 2)',
     24: 'C20_raises: an HTTP error on a data GET that was made, or a mismatch persisting after the retry, did not raise',
+    25: 'C20_sound_final: the call returned normally, the checksum answer the server holds ready after the last data '
+        'GET (the first answer when no data GET was made) publishes a checksum -- whether or not the call asked for '
+        'it -- and the file left on disk does not have that MD5',
 }
 TRUSTED = ['hashlib.md5 (distinct bodies used by the harness have distinct digests: asserted at import; the theorems '
            'hold for every digest function)',
@@ -164,6 +167,12 @@ CORPUS = [
     (['C1', 'G'], ['ok', 'none'], 'ok', 'absent'),   # checksum disappears between the two verifications
     (['C1', 'G'], ['none', 'ok'], 'ok', 'P'),    # pre-check blind, post-check sees the mismatch
     (['G'], ['bad', 'ok'], 'ok', 'G'),           # pre-check says invalid, re-download verified
+    # stage 5: the checksum file is missing when the existing file is pre-checked and published from then on
+    # (a "missing" answer must not be remembered): corrupted transfer refuted, one retry
+    (['C1'], ['none'], 'ok', 'P'),               # ... retry gets 404 -> HTTPError, never a normal return
+    (['C1', 'C2'], ['none'], 'ok', 'G'),         # ... valid file not recognised, overwritten, RuntimeError
+    (['C1', 'G'], ['none', 'bad', 'none'], 'ok', 'C1'),   # missing, wrong, missing: the retry's good body accepted unverified
+    (['G'], ['none', 'none'], 'ok', 'P'),        # missing for pre-check and verification: accepted unverified
 ]
 
 
